@@ -78,20 +78,22 @@ Definition Sweeping (m : Z) : gen :=
         (fun s => Obs (sw_np s) (sw_nf s) [] [] [] []).
 
 (* ---------------------------------------------------------------------------------------------- *)
-(* Random(seed): the k-th DNA drawn from the seeded PRNG is [draw k] *)
+(* Random(seed): the k-th DNA drawn from the PRNG is [draw k].  With a seed, _replay re-draws once per history
+   entry; without one (seeded = false: the global PRNG) it does nothing. *)
 Record rd_st := mkRd { rd_np : nat; rd_nf : nat; rd_k : nat }.
 
 Definition rd_propose (draw : nat -> Z) (s : rd_st) : outcome * rd_st :=
   (Ok (bare (draw (rd_k s))), mkRd (S (rd_np s)) (rd_nf s) (S (rd_k s))).
 Definition rd_feedback (s : rd_st) (d : dna) (r : Z) : dna * rd_st :=
   (d, mkRd (rd_np s) (S (rd_nf s)) (rd_k s)).
-Definition rd_replay (s : rd_st) (e : hentry) : rd_st :=
-  mkRd (S (rd_np s)) (rd_nf s + rewarded (snd e)) (S (rd_k s)).
-Definition rd_recover (s : rd_st) (h : list hentry) : rd_st := fold_left rd_replay h s.
+Definition rd_replay (seeded : bool) (s : rd_st) (e : hentry) : rd_st :=
+  mkRd (S (rd_np s)) (rd_nf s + rewarded (snd e)) (if seeded then S (rd_k s) else rd_k s).
+Definition rd_recover (seeded : bool) (s : rd_st) (h : list hentry) : rd_st := fold_left (rd_replay seeded) h s.
 
-Definition RandomSeeded (draw : nat -> Z) : gen :=
-  mkGen rd_st (mkRd 0 0 0) (rd_propose draw) rd_feedback rd_recover false
+Definition RandomGen (seeded : bool) (draw : nat -> Z) : gen :=
+  mkGen rd_st (mkRd 0 0 0) (rd_propose draw) rd_feedback (rd_recover seeded) false
         (fun s => Obs (rd_np s) (rd_nf s) [] [] [] []).
+Notation RandomSeeded := (RandomGen true).
 
 (* ---------------------------------------------------------------------------------------------- *)
 (* Deduping(generator, hash_fn, auto_reward_fn, max_duplicates, max_proposal_attempts) *)
@@ -355,14 +357,14 @@ End Evolution.
 (* algorithm syntax (what a case names) and its denotation *)
 Inductive alg :=
 | ASweep
-| ARand (draws : list Z)
+| ARand (seeded : bool) (draws : list Z)
 | ADedup (a : alg) (hm auto maxdup maxatt : nat)
 | AEvo (ini : alg) (size : option nat) (u : updk) (children : list (list Z)).
 
 Fixpoint denote (m : Z) (a : alg) : gen :=
   match a with
   | ASweep => Sweeping m
-  | ARand t => RandomSeeded (fun k => nth k t (-1)%Z)
+  | ARand sd t => RandomGen sd (fun k => nth k t (-1)%Z)
   | ADedup a' hm auto maxdup maxatt => Deduping (denote m a') m hm auto maxdup maxatt
   | AEvo i size u t =>
       Evolution (denote m i) size unit tt
@@ -373,7 +375,8 @@ Fixpoint denote (m : Z) (a : alg) : gen :=
 (* proposals are a function of history and seed *)
 Fixpoint deterministic (a : alg) : bool :=
   match a with
-  | ASweep | ARand _ => true
+  | ASweep => true
+  | ARand sd _ => sd
   | ADedup a' _ _ _ _ => deterministic a'
   | AEvo _ _ _ _ => false
   end.
@@ -442,7 +445,7 @@ End Run.
 (* ---------------------------------------------------------------------------------------------- *)
 (* wire format
    case  ::= (alg m (reward ...) (event ...))
-   alg   ::= (0) | (1 (draw ...)) | (2 alg hashmod auto maxdup maxatt) | (3 alg (size?) upd ((child ...) ...))
+   alg   ::= (0) | (1 (draw ...)) | (6 (draw ...)) | (2 alg hashmod auto maxdup maxatt) | (3 alg (size?) upd ((child ...) ...))
    upd   ::= (0) | (1 n) | (2 n) | (3) | (4 ((pid ...) ...)) | (5 a b)
    out   ::= (snapshot ...)            one per crash point (before each event, and after the last)
    snapshot ::= (live recovered live_continuation recovered_continuation (recovered_with_undelivered_reward?) (recovered_from_proposal_time_metadata?))
@@ -477,7 +480,8 @@ Fixpoint d_alg (fuel : nat) (t : tr) : option alg :=
   | S f =>
       match t with
       | L [I 0] => Some ASweep
-      | L [I 1; draws] => do ds <- dlist dZ draws; Some (ARand ds)
+      | L [I 1; draws] => do ds <- dlist dZ draws; Some (ARand true ds)
+      | L [I 6; draws] => do ds <- dlist dZ draws; Some (ARand false ds)
       | L [I 2; a; hm; auto; maxdup; maxatt] =>
           do a' <- d_alg f a; do hm' <- dnat hm; do auto' <- dnat auto; do md <- dnat maxdup; do ma <- dnat maxatt;
           Some (ADedup a' hm' auto' md ma)
